@@ -465,17 +465,23 @@ def step (F : Flags) (line : String) : String :=
               s!"removeable={F.removeable true ovw hasfn} remove-deleted={rm.1} remove-raised={rm.2}"
     | _, _, _ => "bad-op"
   | "entry" :: _ =>
-    -- a creating entry point against an existing/missing path: does it raise, is the path kept?
-    match kv ws "kind", (kv ws "ovw").bind parseBool?, (kv ws "disk").bind parseDisk? with
-    | some kind, some ovw, some d0 =>
+    -- a creating entry point against an existing/missing path: does it raise, is the path
+    -- kept, and may the object it returns remove() the file?
+    match kv ws "kind", (kv ws "ovw").bind parseBool?, (kv ws "disk").bind parseDisk?,
+          (kv ws "hasfn").bind parseBool? with
+    | some kind, some ovw, some d0, some hasfn =>
       let mode := if kind == "fpt" then (if ovw then "overwrite" else "write")
                   else if kind == "export" then F.exportMode ovw
-                  else F.ptTempoMode ovw (d0 != Disk.missing)
+                  else F.ptTempoMode ovw (fun _ => d0 != Disk.missing)
       let m : Meta := ⟨2, none, none, none, "n", "d"⟩
+      let rm := match F.modeFlags mode with
+        | some (wr, o) => removeRun F.removeSteps (F.removeable wr o hasfn)
+        | none => (false, true)
+      let rmS := if rm.1 then "deleted" else if rm.2 then "refused" else "kept"
       match createFile F ⟨"v"⟩ d0 mode m with
-      | .ok w => if w.d == d0 then "ok-unchanged" else "ok-created"
+      | .ok w => (if w.d == d0 then "ok-unchanged" else "ok-created") ++ " remove=" ++ rmS
       | .error _ => "raises-unchanged"
-    | _, _, _ => "bad-op"
+    | _, _, _, _ => "bad-op"
   | ["choice", t, x] =>
     match parseBool? t, parseBool? x with
     | some t, some x => (match F.ptTempoChoice t x with
@@ -483,7 +489,7 @@ def step (F : Flags) (line : String) : String :=
     | _, _ => "bad-op"
   | ["ptmode", o] =>
     match parseBool? o with
-    | some o => F.ptTempoMode o false
+    | some o => F.ptTempoMode o (fun _ => false)
     | none => "bad-op"
   | _ => "bad-op"
 
